@@ -1,10 +1,10 @@
 INIT Init
 NEXT Next
-CONSTRAINT OneStep
 INVARIANT TypeOK
 INVARIANT ReadInRange
 INVARIANT OrderDuality
 INVARIANT CodecInverse
 INVARIANT WritePost
+INVARIANT BcdFormsAgree
 INVARIANT SymSane
 CHECK_DEADLOCK FALSE
